@@ -144,32 +144,27 @@ theorem toFileMap_mem {c : Cls} (hc : c ≠ .mgh) {rnd : Rat → Rat} {p32 : Nat
   exact tfmBody_mem hc ho1 ho2 hd e.1
 
 theorem saveSeq_spec (c : Cls) (rnd : Rat → Rat) (p32 : Nat) (i : InT) (data : List Val) (h : Hdr) :
-    ∀ (args : List (Option DT)) (rs : List (Except Err (Rat × Rat × List Int))) (hf : Hdr),
-      saveSeq c rnd p32 i data h args = some (rs, hf) →
-      hf = h ∧ List.Forall₂ (fun a r => toFileMap c rnd p32 i h a data = some (r, h)) args rs := by
+    ∀ (args : List (Option DT)),
+      (saveSeq c rnd p32 i data h args).2 = h ∧
+      List.Forall₂ (fun a r => (toFileMap c rnd p32 i h a data).map Prod.fst = r ∧
+                               ∀ x, toFileMap c rnd p32 i h a data = some x → x.2 = h)
+        args (saveSeq c rnd p32 i data h args).1 := by
   intro args
   induction args with
-  | nil => intro rs hf e; simp only [saveSeq, Option.some.injEq, Prod.mk.injEq] at e
-           obtain ⟨rfl, rfl⟩ := e; exact ⟨rfl, .nil⟩
+  | nil => exact ⟨rfl, .nil⟩
   | cons a rest ih =>
-    intro rs hf e
-    unfold saveSeq at e
+    unfold saveSeq
     cases h1 : toFileMap c rnd p32 i h a data with
-    | none => rw [h1] at e; cases e
+    | none =>
+      simp only
+      refine ⟨ih.1, .cons ⟨by rw [h1]; rfl, fun x hx => ?_⟩ ih.2⟩
+      rw [h1] at hx; cases hx
     | some rh =>
       obtain ⟨r, h'⟩ := rh
       have hh := toFileMap_restores h1
       subst hh
-      rw [h1] at e
-      simp only at e
-      cases h2 : saveSeq c rnd p32 i data h' rest with
-      | none => rw [h2] at e; cases e
-      | some q =>
-        obtain ⟨rs', hf'⟩ := q
-        rw [h2] at e
-        simp only [Option.some.injEq, Prod.mk.injEq] at e
-        obtain ⟨rfl, rfl⟩ := e
-        obtain ⟨e1, e2⟩ := ih rs' hf' h2
-        exact ⟨e1, .cons h1 e2⟩
+      simp only
+      refine ⟨ih.1, .cons ⟨by rw [h1]; rfl, fun x hx => ?_⟩ ih.2⟩
+      rw [h1] at hx; cases hx; rfl
 
 end Nb.C02
